@@ -95,7 +95,10 @@ fn mix_set(k: usize, pos: usize) -> (V9Set, usize) {
         8 => (V9Set::Tpl(vec![mix_tpl(3)], 0), 1),
         9 => (V9Set::Tpl(vec![mix_tpl(4)], 0), 1),
         // an options template under the id the plain templates use: the id changes kind
-        _ => (V9Set::OptTpl(vec![V9OptTpl { id: 256, scope: vec![fs(2, 2)], opts: vec![fs(34, 2), fs(36, 4)] }], 2), 1),
+        10 => (V9Set::OptTpl(vec![V9OptTpl { id: 256, scope: vec![fs(2, 2)], opts: vec![fs(34, 2), fs(36, 4)] }], 2), 1),
+        // 8 data bytes for 256: one record of that options template, one record and two bytes under template 0, less
+        // than a record under the 12-byte templates
+        _ => (V9Set::Data(256, mix_body(50 + pos, 0)[..8].to_vec()), 1),
     }
 }
 
@@ -188,13 +191,13 @@ pub fn streams_with(tier: &str, lists: usize) -> Vec<StreamGen> {
         };
                 v.push(stream_gen("v9-options-templates", ns * no * 16, mk));
     }
-    // 4. flowset mixes: all sequences of <= 3 (thorough 5) sets over an 11-set menu x prior context x count convention
+    // 4. flowset mixes: all sequences of <= 3 (thorough 5) sets over a 12-set menu x prior context x count convention
     {
         let maxlen = if thorough { 5 } else { 3 };
-        let nl = list_count(11, maxlen);
+        let nl = list_count(12, maxlen);
         let mk = move |i: u64| -> Vec<Vec<u8>> {
             let d = digits(i, &[nl, 2, 2]);
-            let seq = list_at(11, maxlen, d[0]);
+            let seq = list_at(12, maxlen, d[0]);
             let mut sets = vec![];
             let mut nrecords = 0;
             for (pos, k) in seq.iter().enumerate() {
@@ -312,6 +315,30 @@ pub fn streams_with(tier: &str, lists: usize) -> Vec<StreamGen> {
         };
         v.push(stream_gen("v9-wide-templates", nw * 6, move |i| Some(mk(i))));
     }
+    // 8. many records per data flowset: counts around every power of two up to what one datagram holds, three
+    // template shapes, template delivered in the same packet / same buffer / an earlier call
+    {
+        let shapes: Vec<Vec<FieldSpec>> = vec![vec![fs(5, 1)], vec![fs(1, 4)], vec![fs(8, 4), fs(7, 2), fs(4, 1), fs(5, 1)]];
+        let mut counts: Vec<usize> = vec![];
+        for k in 2..=16u32 {
+            let p = 1usize << k;
+            counts.extend([p - 1, p, p + 1]);
+        }
+        counts.extend([100, 1000, 10000]);
+        let (ns, nc) = (shapes.len() as u64, counts.len() as u64);
+        let mk = move |i: u64| -> Option<Vec<Vec<u8>>> {
+            let d = digits(i, &[ns, nc, 3]);
+            let fields = shapes[d[0] as usize].clone();
+            let rs: usize = fields.iter().map(|f| f.len as usize).sum();
+            let n = counts[d[1] as usize];
+            if n * rs + 4 + 20 + 8 + 4 * fields.len() + 4 > 65535 {
+                return None;
+            }
+            let body = body_for(&fields, n, 0, None);
+            Some(deliver(V9Set::Tpl(vec![V9Tpl { id: 256, fields }], 0), V9Set::Data(256, body), d[2]))
+        };
+        v.push(stream_gen("v9-many-records-per-flowset", ns * nc * 3, mk));
+    }
     v
 }
 
@@ -320,7 +347,7 @@ pub fn run(tier: &str) -> i32 {
         prop: "C04".into(),
         tier: tier.into(),
         level: "model_checking",
-        rule: "every index of each space is a conformant V9 stream (1..3 calls on one fresh parser) built from finite menus: every field type 1..=520(+extras) x every supported width x value menu x delivery x padding; all lists of class representatives of length <= 4 (thorough 5) x records x padding x delivery; all scope/option lists; all flowset sequences of length <= 3 (thorough 6) over an 11-set menu x prior context x count convention. Each call's result is compared with the RFC 3954 reference decode; an outcome is distinct by the hash of the canonical results of all calls".into(),
+        rule: "every index of each space is a conformant V9 stream (1..3 calls on one fresh parser) built from finite menus: every field type 1..=520(+extras) x every supported width x value menu x delivery x padding; all lists of class representatives of length <= 4 (thorough 5) x records x padding x delivery; all scope/option lists; all flowset sequences of length <= 3 (thorough 6) over a 12-set menu x prior context x count convention. Each call's result is compared with the RFC 3954 reference decode; an outcome is distinct by the hash of the canonical results of all calls".into(),
         bounds: json!({"history_depth": 3, "multi_field_list_len": if tier=="thorough" {5} else {4}, "flowset_sequence_len": if tier=="thorough" {6} else {3}, "records_per_flowset": "1..=3", "padding": "0..=3"}),
         assumptions: vec!["field number -> (name, value class) is the library's own table (pinned by its lookup snapshot tests)".into(), "count field read as an upper bound on flowsets (C11's reading); a packet extends to the end of the buffer otherwise".into()],
         trusted_base: vec!["refmodel::ref_v9 (RFC 3954 reference decoder) and refmodel::decode".into()],
